@@ -41,6 +41,10 @@ fn variants(e: &[usize], nq: usize) -> Vec<(String, Vec<usize>)> {
     let mut s = vec![1];
     s.extend_from_slice(e);
     v.push(("rank+1(leading 1)".into(), s));
+    // shapes the required shape can be broadcast to
+    let mut s = vec![2];
+    s.extend_from_slice(e);
+    v.push(("rank+1(leading 2)".into(), s));
     if e.len() >= 2 {
         // merge two neighbouring axes: same element count, rank - 1
         for i in 0..e.len() - 1 {
@@ -152,6 +156,40 @@ fn probe(
     }
 }
 
+/// A batch with an out-of-range element that is not the last one: the allocating variant returns
+/// Err, so Ok from the *_into variant means the buffer does not hold what the allocating variant
+/// returns (and some of it was never written).
+fn probe_failing_batch(
+    out: &mut JobOut,
+    key: &str,
+    expected: &[usize],
+    alloc_is_err: bool,
+    call: &dyn Fn(ArrayViewMutD<f64>) -> CallRes,
+    case: &dyn Fn(Vec<(&str, Json)>) -> Json,
+) {
+    let mut buf = ArrayD::from_elem(IxDyn(expected), POISON);
+    let Some(res) = call(buf.view_mut()) else { return };
+    out.evals += 1;
+    out.transitions += 1;
+    out.nontrivial += 1;
+    out.outcome(format!("failing-batch:{}", match &res { Ok(Ok(())) => "Ok", Ok(Err(_)) => "Err", Err(_) => "panic" }));
+    if let Ok(Ok(())) = res {
+        let left = buf.iter().filter(|v| v.to_bits() == POISON.to_bits()).count();
+        // Ok => every element overwritten, and the same verdict as the allocating variant
+        if left > 0 || alloc_is_err {
+            out.violate(
+                format!("{key}:failing-batch"),
+                format!(
+                    "the *_into call returned Ok for a batch whose first element is out of range: {left} of {} buffer elements were never written{}",
+                    buf.len(),
+                    if alloc_is_err { "; the allocating variant returns Err" } else { "" }
+                ),
+                case(vec![("batch", Json::str("first element out of range, the rest in range"))]),
+            );
+        }
+    }
+}
+
 fn data_nd(shape: &[usize]) -> ArrayD<f64> {
     let mut c = 0.0f64;
     ArrayD::from_shape_fn(IxDyn(shape), |_| {
@@ -207,17 +245,26 @@ macro_rules! with_1d {
                     let w = win.into_dimensionality().ok()?;
                     Some(catch(|| ip.interp_array_into(&q, w)))
                 }, &case);
+                if q.len() >= 2 {
+                    let mut qbad = q.clone();
+                    *qbad.iter_mut().next().unwrap() = -5.0;
+                    let alloc_is_err = matches!(catch(|| ip.interp_array(&qbad)), Ok(Err(_)));
+                    probe_failing_batch($out, &key, &expected, alloc_is_err, &|win: ArrayViewMutD<f64>| -> CallRes {
+                        let w = win.into_dimensionality().ok()?;
+                        Some(catch(|| ip.interp_array_into(&qbad, w)))
+                    }, &case);
+                }
                 $out.states += 1;
             }
         )*
-        // interp_into: buffer = data shape without the first axis
-        {
+        // interp_into: buffer = data shape without the first axis; queries inside an interval
+        // and exactly at the last / first knot
+        for x in [1.25, (job.data_shape[0] - 1) as f64, 0.0] {
             let ip = nimc::valid_build!($out, Interp1DBuilder::new(data.clone()).strategy($strat).build(), return);
-            let x = 1.25;
             let reference = ip.interp(x).expect("in range");
-            let key = format!("{}:interp_into(dyn)", job.key());
+            let key = format!("{}:interp_into(dyn,x={x})", job.key());
             let case = |extra: Vec<(&str, Json)>| {
-                let mut v = vec![("call", Json::str("Interp1D::interp_into")), ("data_shape", Json::usizes(&job.data_shape)), ("strategy", Json::str(job.strat))];
+                let mut v = vec![("call", Json::str("Interp1D::interp_into")), ("query", Json::Num(x)), ("data_shape", Json::usizes(&job.data_shape)), ("strategy", Json::str(job.strat))];
                 v.extend(extra);
                 Json::obj(v)
             };
@@ -235,9 +282,10 @@ fn run_1d_static_interp_into(job: &Job, out: &mut JobOut) {
         ($d:ty, $n:expr) => {
             if job.data_shape.len() == $n {
                 let d = data_nd(&job.data_shape).into_dimensionality::<$d>().unwrap();
-                let ip = nimc::valid_build!(out, Interp1DBuilder::new(d).build(), return);
-                let reference = ip.interp(1.25).expect("in range").into_dyn();
-                let key = format!("{}:interp_into({})", job.key(), stringify!($d));
+              for x in [1.25, (job.data_shape[0] - 1) as f64, 0.0] {
+                let ip = nimc::valid_build!(out, Interp1DBuilder::new(d.clone()).build(), return);
+                let reference = ip.interp(x).expect("in range").into_dyn();
+                let key = format!("{}:interp_into({},x={x})", job.key(), stringify!($d));
                 let case = |extra: Vec<(&str, Json)>| {
                     let mut v = vec![("call", Json::str("Interp1D::interp_into")), ("data_dim", Json::str(stringify!($d))), ("data_shape", Json::usizes(&job.data_shape))];
                     v.extend(extra);
@@ -245,8 +293,9 @@ fn run_1d_static_interp_into(job: &Job, out: &mut JobOut) {
                 };
                 probe(out, &key, &job.data_shape[1..], 0, &reference, &|win: ArrayViewMutD<f64>| -> CallRes {
                     let w = win.into_dimensionality().ok()?;
-                    Some(catch(|| ip.interp_into(1.25, w)))
+                    Some(catch(|| ip.interp_into(x, w)))
                 }, &case);
+              }
             }
         };
     }
@@ -304,6 +353,21 @@ fn run_2d(job: &Job, out: &mut JobOut) {
                     let w = win.into_dimensionality().ok()?;
                     Some(catch(|| ip.interp_array_into(&qx, &qy, w)))
                 }, &case);
+                if qx.len() >= 2 {
+                    for which in 0..2 {
+                        let (mut bx, mut by) = (qx.clone(), qy.clone());
+                        if which == 0 {
+                            *bx.iter_mut().next().unwrap() = -5.0;
+                        } else {
+                            *by.iter_mut().next().unwrap() = 1e9;
+                        }
+                        let alloc_is_err = matches!(catch(|| ip.interp_array(&bx, &by)), Ok(Err(_)));
+                        probe_failing_batch(out, &key, &expected, alloc_is_err, &|win: ArrayViewMutD<f64>| -> CallRes {
+                            let w = win.into_dimensionality().ok()?;
+                            Some(catch(|| ip.interp_array_into(&bx, &by, w)))
+                        }, &case);
+                    }
+                }
                 out.states += 1;
             }
         };
@@ -370,15 +434,17 @@ fn run_2d(job: &Job, out: &mut JobOut) {
     }
     // interp_into
     {
+      for (qx0, qy0) in [(1.25, 0.75), ((job.data_shape[0] - 1) as f64, (job.data_shape[1] - 1) as f64), (0.0, (job.data_shape[1] - 1) as f64)] {
         let ip = nimc::valid_build!(out, Interp2DBuilder::new(data.clone()).build(), return);
-        let reference = ip.interp(1.25, 0.75).expect("in range");
-        let key = format!("{}:interp_into(dyn)", job.key());
+        let reference = ip.interp(qx0, qy0).expect("in range");
+        let key = format!("{}:interp_into(dyn,{qx0},{qy0})", job.key());
         let case = |extra: Vec<(&str, Json)>| {
             let mut v = vec![("call", Json::str("Interp2D::interp_into")), ("data_shape", Json::usizes(&job.data_shape))];
             v.extend(extra);
             Json::obj(v)
         };
-        probe(out, &key, &job.data_shape[2..], 0, &reference, &|win: ArrayViewMutD<f64>| -> CallRes { Some(catch(|| ip.interp_into(1.25, 0.75, win))) }, &case);
+        probe(out, &key, &job.data_shape[2..], 0, &reference, &|win: ArrayViewMutD<f64>| -> CallRes { Some(catch(|| ip.interp_into(qx0, qy0, win))) }, &case);
+      }
     }
 }
 
@@ -388,13 +454,13 @@ fn body(ctx: &Ctx) -> (Summary, Meta) {
     let _ = quick;
     let qshapes: Vec<Vec<usize>> = vec![vec![3], vec![1], vec![2, 3], vec![3, 2], vec![2, 2], vec![2, 1, 3], vec![2, 3, 2], vec![], vec![4], vec![0], vec![2, 0]];
     for strat in ["Linear", "CubicSpline"] {
-        for ds in [vec![4], vec![4, 3], vec![4, 3, 2], vec![4, 2, 3, 2], vec![4, 2, 2]] {
+        for ds in [vec![4], vec![4, 3], vec![4, 3, 2], vec![4, 2, 3, 2], vec![4, 2, 2], vec![4, 1], vec![4, 1, 3], vec![4, 3, 1]] {
             for qs in &qshapes {
                 jobs.push(Job { two_d: false, data_shape: ds.clone(), query_shape: qs.clone(), strat });
             }
         }
     }
-    for ds in [vec![3, 4], vec![3, 4, 3], vec![3, 4, 3, 2], vec![4, 3, 2, 2]] {
+    for ds in [vec![3, 4], vec![3, 4, 3], vec![3, 4, 3, 2], vec![4, 3, 2, 2], vec![3, 4, 1], vec![3, 4, 1, 2]] {
         for qs in &qshapes {
             jobs.push(Job { two_d: true, data_shape: ds.clone(), query_shape: qs.clone(), strat: "Bilinear" });
         }
